@@ -2,6 +2,7 @@
 from . import layout
 from . import c07
 from .core import RuleResult
+import re
 from .facts import fn_key, fn_loc, fn_file, walk, strip, peel_refs, pat_bindings, Render, children
 from .sym import Tracer, Term, Cmp, Poly, k, as_term, as_poly, walk_terms, CMP_NEG, guard_relations
 from .taint import parent_map, SORTS
@@ -548,9 +549,62 @@ def rule_tie(ctx):
     return res.finish(1)
 
 
+def rule_dedup(ctx):
+    """'OPTICS lists every sample exactly once, with core distance equal to the distance to its min_points-th nearest
+    neighbour': the neighbour lists must keep every neighbour.  `dedup()` / `contains()` decide identity through the element
+    type's PartialEq; OPTICS' Sample compares by reachability distance alone (it exists to order the seed list), so
+    equality-based de-duplication merges *different* samples that happen to be equally far away - on lattices and
+    duplicates the core distance is then read off a shortened list."""
+    res = RuleResult("R-C08-dedup", "no equality-based de-duplication (dedup / dedup_by_key on the comparison key) of sample lists whose element equality ignores the sample's identity")
+    F = ctx.facts()
+    adts = {}
+    for c in F.crates.values():
+        for a in c.adts:
+            adts.setdefault(a["path"].split("::")[-1], (c, a))
+    eqs = {}
+    for fn in F.all_fns():
+        d = fn["d"]
+        if d["name"] == "eq" and (d.get("trait") or "").endswith("PartialEq") and d.get("self_adt"):
+            eqs[d["self_adt"].split("::")[-1]] = fn
+    n = 0
+    for fn in F.all_fns():
+        d = fn["d"]
+        if d["krate"] != "linfa_clustering" or fn.get("exp") or not any(x in d["path"] + " " + (d.get("self_adt") or "") for x in ("dbscan", "optics", "Dbscan", "Optics")):
+            continue
+        c = fn["crate"]
+        n += 1
+        key = fn_key(fn)
+        found = False
+        for y in walk(fn["body"]):
+            if y.get("k") != "MethodCall" or y["name"] != "dedup" or y["args"]:
+                continue
+            ty = c.ty(peel_refs(y["recv"]).get("t")) or c.ty(y["recv"].get("t")) or ""
+            el = None
+            for nm in re.findall(r"\b([A-Z]\w*)\b", ty):
+                if nm in eqs and nm not in ("Vec", "Option"):
+                    el = nm
+            if el is None:
+                continue
+            eq = eqs[el]
+            ent = adts.get(el)
+            if eq.get("exp") or ent is None or len(ent[1]["variants"]) != 1:
+                continue
+            fields = [f["name"] for f in ent[1]["variants"][0]["fields"] if "PhantomData" not in (f.get("ty") or "")]
+            used = set(z["name"] for z in walk(eq["body"]) if z.get("k") == "Field")
+            ignored = [f for f in fields if f not in used]
+            if ignored:
+                found = True
+                res.instance("%s : dedup of %s" % (key, el))
+                res.violate("%s : dedup-by-partial-equality:%s" % (key, el), "`dedup()` on a list of `%s`, whose hand-written PartialEq ignores %s: different samples with equal `%s` are merged and the list loses neighbours" % (el, ", ".join("`%s`" % f for f in ignored), "`, `".join(sorted(used & set(fields)))), fn_loc(fn, y.get("ln")))
+        if not found:
+            res.instance(key)
+            res.ok()
+    return res.finish(25)
+
+
 def rules(tier):
     from . import carry, c04
     from . import precision
     return [rule_core, rule_self, rule_index, rule_order, rule_once, rule_memorder, rule_tie, rule_start, c07.rule_edge, c07.rule_unit,
             carry.make_clone_rule("R-C08-clone", {"linfa_clustering", "linfa_nn"}, 10), carry.make_setter_rule("R-C08-override", {"linfa_clustering"}, 10), c04.make_carry_rule("R-C08-carry", {"DbscanParams", "OpticsParams"}, 6),
-            precision.make_rule("R-C08-precision", lambda f: f["d"]["krate"] == "linfa_clustering" and any(x in f["d"]["path"] + " " + (f["d"].get("self_adt") or "") for x in ("dbscan", "optics", "Dbscan", "Optics")), 30, "linfa-clustering dbscan / optics")]
+            precision.make_rule("R-C08-precision", lambda f: f["d"]["krate"] == "linfa_clustering" and any(x in f["d"]["path"] + " " + (f["d"].get("self_adt") or "") for x in ("dbscan", "optics", "Dbscan", "Optics")), 30, "linfa-clustering dbscan / optics"), rule_dedup]
